@@ -118,9 +118,9 @@ CLAIMED["C17"] = ("Proof: the argument splitter returns the (type, name) pairs o
     "container returns), clones the context before a consuming call and releases the clone after it; the drop helper releases instance and context once; C++ member functions "
     "of groups and single-trait objects forward likewise. Tie: the wrapper AST the theorems talk about is rendered and compared (modulo white space) with the text the REAL "
     "parse_header emits for generated cbindgen-shaped headers; the container/context tables and two source-dependent decisions are re-read from the source. Monitor: the processed "
-    "header is compiled with a generated mock-vtable driver and every entry's wrapper is called; mocks log slot, container, arguments, clone/release order.", "5.C17",
+    "header is compiled (gcc -std=c99 / g++ -std=c++11) with a generated mock-vtable driver and every entry's wrapper or member function is called; mocks log slot, container, arguments, clone/release order, destructor effects; consuming entries also on an empty context.", "5.C17",
     "Trusted: Coq kernel; header generator hdrgen.py (cbindgen is not installed); harness/bindgen (includes the tool's sources by path); mock driver generator + gcc; translator bindgentables.py. "
-    "Not modelled: the discovery regular expressions (differential runs only). C++ mode: theorems only so far (no g++ driver yet).",
+    "Not modelled: the discovery regular expressions (differential runs only); null function pointers (covered by the driver's empty-context scenario only).",
     "Coq proof over a model of the wrapper generator + text-level tie to the real tool + compiled mock-vtable runs")
 PENDING = "not yet built in this round (planned, see DESIGN.md section 5); not claimed until its theorem, tie and monitor exist"
 NA = {}
